@@ -57,10 +57,21 @@ def handle (s : S) (i : Nat) (j : Json) : S × List Json :=
           -- the curve; one unit of an asset changes the product by the product of the other reserves
           let touching := (st.endMoves ++ st.beginMoves ++ (st.txs.map (·.moves)).flatten).filter (fun m => m.src == addr || m.dst == addr)
           let perUnit := p.assets.foldl (fun acc a => max acc (weightedProduct (ws.filter (fun x => x.1 != a.1)) p.assets)) 0
-          if kAfter + perUnit * touching.length ≥ kBefore then none else
+          -- the same on what the pool really HOLDS (bank balances of its address): a swap priced on a book that differs from the holdings
+          -- (a hop that ran on a stale copy of the pool) pays more than the curve through the real reserves allows
+          let heldB := po.assets.map (fun (d, _) => (d, pre.bank.get (addr, d)))
+          let heldA := p.assets.map (fun (d, _) => (d, st.obs.bank.get (addr, d)))
+          let hBefore := weightedProduct ws heldB
+          let hAfter := weightedProduct ws heldA
+          let perUnitH := heldA.foldl (fun acc a => max acc (weightedProduct (ws.filter (fun x => x.1 != a.1)) heldA)) 0
+          if kAfter + perUnit * touching.length < kBefore then
             some (verdictViol i "C03.constant_product_not_decreasing" (Json.mkObj [("pool", Json.num p.id),
               ("before", Json.arr (po.assets.map (fun (d, a) => Json.arr #[Json.str d, mkInt a])).toArray),
               ("after", Json.arr (p.assets.map (fun (d, a) => Json.arr #[Json.str d, mkInt a])).toArray)]))
+          else if hAfter + perUnitH * touching.length ≥ hBefore then none else
+            some (verdictViol i "C03.constant_product_of_holdings_not_decreasing" (Json.mkObj [("pool", Json.num p.id),
+              ("before", Json.arr (heldB.map (fun (d, a) => Json.arr #[Json.str d, mkInt a])).toArray),
+              ("after", Json.arr (heldA.map (fun (d, a) => Json.arr #[Json.str d, mkInt a])).toArray)]))
         | _, _ => none
     let s := { s with prev := some st.obs }
     let prices := st.obs.denomPrices
